@@ -10,6 +10,10 @@ Two levels, both executable:
   `rs` = the `Response` pointer, `none` = nil), `entries` is a Go map (`GoMap`: lookup + `len`),
   `tail` is the tail pointer of the circular singly linked list.
 
+* API level (`Logger`, `Call`, end of the file): the logging options and the `NewRequest` /
+  `NewResponse` failure paths; a call = thread-local prelude + at most one critical section (`Op`;
+  `Op.idle` = returned before the lock).  `Model/HarLogConc.lean` runs such calls concurrently.
+
 A request / response is identified by the index of the operation that recorded it (`t`): the
 harness puts that index into the request URL / response status so that "each response attached to
 its own request" is observable.  Core Lean only (linked into the driver).
